@@ -1502,9 +1502,9 @@ package ice
 //@ // ---- C16/C04/C10: a field's record in the fields section: (dictionary location, name length),
 //@ // name, (documents with the field, total tokens of the field), in that order, on both sides ----
 //@ func writeUvarints
-//@   ghostset wu0 = ite(len(vals) > 0, vals[0], 0)
-//@   ghostset wu1 = ite(len(vals) > 1, vals[1], 0)
-//@   ensures[C04,C10,C16] wu0 == ite(len(vals) > 0, vals[0], 0) && wu1 == ite(len(vals) > 1, vals[1], 0)
+//@   ghostset wu0 = old(ite(len(vals) > 0, vals[0], 0))
+//@   ghostset wu1 = old(ite(len(vals) > 1, vals[1], 0))
+//@   ensures[C04,C07,C10,C16] wu0 == old(ite(len(vals) > 0, vals[0], 0)) && wu1 == old(ite(len(vals) > 1, vals[1], 0))
 //@ func persistFields
 //@   at call:writeUvarints#0 lemma[C04,C10,C16] wu0 == dictLocs[fieldID] && wu1 == len(fieldName)
 //@   at call:writeUvarints#1 lemma[C04,C10,C16] wu0 == fieldDocs[uint16(fieldID)] && wu1 == fieldFreqs[uint16(fieldID)]
@@ -1514,3 +1514,33 @@ package ice
 //@   at call:encoding/binary.Uvarint#3 ghostset rdf = result0
 //@   at mapupdate#2 lemma[C04,C10] s.fieldDocs[uint16(fieldID)] == rdd && fieldFreqVal == rdf
 //@   at mapupdate#2 lemma[C04,C10] s.dictLocs[fieldID] == rdl
+//@
+//@ // ---- C07/C10: doc-value chunk header: entry i is written as the pair of differences to entry i-1
+//@ // (document number, end offset) and read back by adding the previous entry ----
+//@ func (*chunkedContentCoder).flushContents
+//@   loop 0 invariant[C07,C10] diffDocNum == ite(rangeindex >= 0, c.chunkMeta[rangeindex].DocNum, 0) && diffDvOffset == ite(rangeindex >= 0, c.chunkMeta[rangeindex].DocDvOffset, 0)
+//@   at call:writeUvarints#0 lemma[C07,C10] wu0 == meta.DocNum - diffDocNum && wu1 == meta.DocDvOffset - diffDvOffset
+//@ func (*docValueReader).loadDvChunk
+//@   at call:encoding/binary.Uvarint#1 ghostset rdh0 = result0
+//@   at call:encoding/binary.Uvarint#2 ghostset rdh1 = result0
+//@   loop 0 invariant[C07,C10] 0 <= i && diffDocNum == ite(i > 0, di.curChunkHeader[i - 1].DocNum, 0) && diffDvOffset == ite(i > 0, di.curChunkHeader[i - 1].DocDvOffset, 0)
+//@   at call:encoding/binary.Uvarint#2 lemma[C07,C10] di.curChunkHeader[i].DocNum == rdh0 + ite(i > 0, di.curChunkHeader[i - 1].DocNum, 0) && diffDocNum == di.curChunkHeader[i].DocNum
+//@
+//@ // ---- C01/C02/C10: what goes into the freq/norm and location streams, per posting ----
+//@ // freq/norm record: (2*freq + hasLocs, norm bits); location stream: the byte length of the
+//@ // posting's locations, then per location (field id, pos, start, end)
+//@ func (*chunkedIntCoder).Add
+//@   ghostset iad = old(docNum)
+//@   ghostset ia0 = old(ite(len(vals) > 0, vals[0], 0))
+//@   ghostset ia1 = old(ite(len(vals) > 1, vals[1], 0))
+//@   ghostset ia2 = old(ite(len(vals) > 2, vals[2], 0))
+//@   ghostset ia3 = old(ite(len(vals) > 3, vals[3], 0))
+//@   ensures[C01,C02,C10] iad == old(docNum) && ia0 == old(ite(len(vals) > 0, vals[0], 0)) && ia1 == old(ite(len(vals) > 1, vals[1], 0)) && ia2 == old(ite(len(vals) > 2, vals[2], 0)) && ia3 == old(ite(len(vals) > 3, vals[3], 0))
+//@ func (*interim).writeDictsTermField
+//@   at call:(*chunkedIntCoder).Add#0 lemma[C01,C10] iad == docNum && ia0 == 2 * freqNorm.freq + ite(freqNorm.numLocs > 0, 1, 0)
+//@   at call:(*chunkedIntCoder).Add#1 lemma[C01,C10] iad == docNum && ia0 == numBytesLocs
+//@   at call:(*chunkedIntCoder).Add#2 lemma[C01,C10] iad == docNum && ia0 == loc.fieldID && ia1 == loc.pos && ia2 == loc.start && ia3 == loc.end
+//@ func mergeTermFreqNormLocs
+//@   at call:(*chunkedIntCoder).Add#0 lemma[C02,C10] iad == hitNewDocNum && ia0 == 2 * nextFreq + ite(len(locs) > 0, 1, 0) && ia1 == nextNorm
+//@   at call:(*chunkedIntCoder).Add#1 lemma[C02,C10] iad == hitNewDocNum && ia0 == numBytesLocs
+//@   at call:(*chunkedIntCoder).Add#2 lemma[C02,C10] iad == hitNewDocNum
